@@ -25,7 +25,7 @@ class Closure:
     def __init__(self, fdef):
         self.fdef = fdef
         self.func = 'script'
-        self.args = ({'name': fdef['name']},)
+        self.args = ({'name': fdef['name'], 'statements': []},)
 
     def __call__(self, *a, **k):
         raise RuntimeError('reference closures are called by the reference machine only')
